@@ -12,6 +12,16 @@ CLAIMS = {
         "real); aliases, handler tables and the call-level signature of 'put' are reflective scan obligations.",
    note="Trusted: pyvc's encoding of Python semantics, z3; SBlock.set_output contract (C02) with assumption A-C02; float = real "
         "arithmetic; amounts are numbers."),
+ 'C02': dict(
+   text="SBlock.set_output, CBlock.eval_block, Event.send, _to_tuple, _is_multiple, event_tuple/efilter_tuple and their validators are "
+        "executed from the real AST.  The activation's call trace is checked call by call against the sequence the property prescribes "
+        "(queue notification, on_output events in configured order, then on_every_output events; each with trigger='output', "
+        "previous = output before the assignment, value = new output; nothing when unchanged and no on_every_output) - including the "
+        "exceptional edge where a delivery fails; Event.send delivers exactly the data that left the filters, once, synchronously. "
+        "Chain lemmas (previous of the next change = value of this one) and scan obligations (writers of _output / _output_events, "
+        "callers of eval_block) lift the per-assignment contract to the whole history.",
+   note="Trusted: pyvc encoding, z3; assumption A-C02 (no nested re-assignment of the same output during delivery); tuples contain "
+        "event objects; iterator arguments (deprecated) excluded. Open known finding: InitAsync.init_regular drops on_output events."),
  'C14': dict(
    text="Circuit.is_ready, Circuit.findblock, ExtEvent.__init__, ExtEvent.send, check_name, Block.__init__ (naming clause) and Event.send "
         "are executed from the real AST against contracts stating the property: send raises EdzedInvalidState and delivers nothing iff "
